@@ -386,6 +386,18 @@ impl EigenTrustEngine {
             *trust *= factor;
         }
 
+        // If everything the iteration converged to sat on nodes whose factor is
+        // zero, what is left is only the residue the stopped iteration leaves in
+        // groups that nobody with standing vouches for (below its own precision).
+        // Normalising that would blow numerical noise up into scores that flip
+        // with the parity of the last round: nobody has positive standing then.
+        let standing: f64 = trust_vector.values().sum();
+        if standing < 10.0 * CONVERGENCE_THRESHOLD {
+            for (_, trust) in trust_vector.iter_mut() {
+                *trust = 0.0;
+            }
+        }
+
         // Apply time decay
         // The read guard must be released before the timestamp is rewritten
         // below; holding it across `last_update.write()` self-deadlocks.
